@@ -469,14 +469,16 @@ def run_c15(chk, prog):
             between = [e for e in p.trace[p.trace.index(r) + 1:p.trace.index(fb[0])] if e[0] in ("write", "store") or (e[0] == "call")]
             ok4 = ok4 and not [e for e in between if e[0] != "call" or any(a[0] == "ref" and a[1][:3] == data_tgt[:3] for a in e[2])]
         chk.ob("C15.O4", "the line read is decoded by Frame::from_bytes unchanged", ok4, key="read:from_bytes-arg", where=where)
-        if fb:
+        if fb and norm(rv if rk else p.value) == norm(fb[0][3]) or (fb and norm(p.value) == norm(fb[0][3])):
+            chk.ob("C15.O4", "the result is exactly what Frame::from_bytes returned (decoded frame or its error)", True, where=where)
+        elif fb:
             d2 = known_val(cons, ("discr", norm(fb[0][3])))
             if d2 == 1:
                 chk.ob("C15.O4", "a decoding error is returned as is", rk == "Err" and is_err_of(rv, fb[0][3]), key="read:decode-error", where=where, detail=fmt_term(p.value))
             else:
                 chk.ob("C15.O4", "the result is exactly the decoded frame", rk == "Ok" and is_ok_of(rv, fb[0][3]), key="read:result", where=where, detail=fmt_term(p.value))
         chk.sample({"read_path": names, "returns": fmt_term(p.value)[:80]})
-    chk.floor("C15", "Frame::read returning paths", nr, 3)
+    chk.floor("C15", "Frame::read returning paths", nr, 2)
     # ---- write ----------------------------------------------------------------------------------
     ev2 = Evaluator(prog, models, no_inline=lambda f: f["path"] in ni)
     paths = ev2.run(wr)
@@ -573,6 +575,8 @@ def run_c17(chk, prog):
         okv = norm(("proj", ("proj", bret, ("downcast", 0, "Ok")), ("field", 0, "?")))
         d3 = known_val(cons, ("discr", okv))
         if d3 is None:
+            d3 = known_val(cons, ("discr", ("unwrap", norm(bret))))
+        if d3 is None:
             alt = [k for k in cons if k[0] == "discr" and k[1][0] in ("proj", "unwrap") and norm(bret) in (k[1][1], k[1][1][1] if k[1][1][0] == "proj" else None)]
             d3 = known_val(cons, alt[0]) if alt else None
         conv2 = [(r, e) for r, e in cs if r == "Frame::from(Message)"]
@@ -580,7 +584,7 @@ def run_c17(chk, prog):
             ok = len(writes) == 1 and len(conv2) == 1 and is_port_ref(writes[0][1][2][1], "*self", port_i) and writes[0][1][6][0] is not None and norm(writes[0][1][6][0]) == norm(conv2[0][1][3])
             if ok:
                 src = norm(conv2[0][1][2][0])
-                ok = src[0] == "proj" and a2.mentions(src, lambda t: t == norm(bret))
+                ok = src[0] in ("proj", "unwrap") and a2.mentions(src, lambda t: t == norm(bret))
             chk.ob("C17.a", "when the bus replied Some(m) exactly one frame Frame::from(m) is written back", ok, key="odk:reply-write", where=where, detail=str(roles))
             wd = known_val(cons, ("discr", norm(writes[0][1][3]))) if writes else None
             if wd == 1:
